@@ -28,7 +28,8 @@ RULE = ('seeded state points on analytic truth motions: |lat|<=80, speed bands <
         'rates to ~1 rad/s; filter steps Delta in {0.1, 0.5, 1, 2} s, IMU step 5 and 2.5 ms; 9 (or 7) error states x 2 signs and 6 sensor-'
         'error directions x 2 signs per point; both altitude modes; propagate_errors on evenly, unevenly and two-rate sampled trajectories (every interval then halved), constant and '
         'per-stamp sensor errors; non-trivial = every point (the existing test uses one trajectory, large errors, 12 % tolerance); '
-        'distinct = generator parameters')
+        'distinct = generator parameters'
+        ' Round 4: before every evaluation the OTHER altitude mode evaluates the same trajectory object and one of its rows (argument purity, order independence); coarse-step class: steady turns of 4..11 deg/s, constant sensor errors, propagate_errors at 2 / 1 / 0.5 s steps against calibrated limits.')
 ASSUMPTIONS = ['coarse-step class: absolute limits 16 / 8 / 4 % (2 / 1 / 0.5 s) on the velocity-error prediction of propagate_errors, calibrated on the unchanged tree for that workload (max 6.2 / 3.0 / 1.5 % over 48 runs)', 'neglected-term table N (per unit time): DR-DR v(1+tan)/R; DV-DR (0.06 + 2 Omega v + v^2 (1+tan^2)/R)/R; DV-PHI (2 Omega + '
                'v(1+tan)/R) v; PHI-DR v(1+tan^2)/R^2; plus a velocity-independent baseline of 1 % of every included entry and 0.1 Omega g in DV-PHI; '
                'calibrated on the unchanged tree (max observed ratio of the residual to the bound recorded in the evidence) and frozen before the mutation runs',
